@@ -5,9 +5,11 @@ use serde_json::Map;
 use crate::{
     callstack::{CallStack, Thread},
     choice::Choice,
+    choice_point::ChoicePoint,
     container::Container,
     json::{json_read, json_write},
     object::RTObject,
+    path::Path,
     story_error::StoryError,
 };
 
@@ -68,9 +70,33 @@ impl Flow {
         )?;
         let j_choice_threads = j_obj.get("choiceThreads");
 
+        flow.restore_invisible_default_choices(&main_content_container);
         flow.load_flow_choice_threads(j_choice_threads, main_content_container)?;
 
         Ok(flow)
+    }
+
+    /// Whether a pending choice is an invisible default (fallback) choice is not
+    /// part of the save format; recover it from the choice point the choice came from.
+    pub(crate) fn restore_invisible_default_choices(
+        &mut self,
+        main_content_container: &Rc<Container>,
+    ) {
+        for choice in self.current_choices.iter_mut() {
+            let source_path = Path::new_with_components_string(Some(&choice.source_path));
+            let is_invisible_default = main_content_container
+                .content_at_path(&source_path, 0, -1)
+                .correct_obj()
+                .and_then(|o| o.into_any().downcast::<ChoicePoint>().ok())
+                .map(|cp| cp.is_invisible_default())
+                .unwrap_or(false);
+
+            if is_invisible_default != choice.is_invisible_default {
+                let mut restored = choice.as_ref().clone();
+                restored.is_invisible_default = is_invisible_default;
+                *choice = Rc::new(restored);
+            }
+        }
     }
 
     pub(crate) fn write_json(&self) -> Result<serde_json::Value, StoryError> {
